@@ -219,6 +219,13 @@ theorem outcome_step (g : Cfg) (s : S) (op : Op) (hop : op ≠ .teardown) : Outc
       · exact .same rfl
       · exact .same (by rw [K_pAddReadWrite]; rfl)
     exact h.of_K rfl rfl
+  | registerDialNow =>
+    have h : Outcome s (registerDialNow g s) := by
+      unfold registerDialNow
+      split
+      · exact .same rfl
+      · exact .same (by rw [K_pAddReadWrite]; rfl)
+    exact h.of_K rfl rfl
   | evTake o0 i e ks =>
     refine Outcome.of_K (t := evTake g s (o0 && (g.mode != .et || s.edgeDue)) i e ks) ?_ rfl rfl
     generalize (o0 && (g.mode != .et || s.edgeDue)) = o
@@ -333,6 +340,7 @@ theorem frozen_step (g : Cfg) (s : S) (op : Op) (hc : s.closed = true) (hop : op
     · rfl
   | register => simp [step, registerOp, register, hc, ghost, Z]
   | registerDial => simp [step, registerDialOp, registerDial, hc, ghost, Z]
+  | registerDialNow => simp [step, registerDialNowOp, registerDialNow, hc, ghost, Z]
   | evTake o i e ks => simp [step, evTakeOp, evTake, deliverable, hc, ghost, Z]
   | evEnd =>
     simp only [step, evEnd]
